@@ -1,30 +1,42 @@
-"""print the markdown table of seeded changes (DESIGN.md §10.5) from seeded/*/meta.json + HISTORY.json"""
+"""print the markdown tables of seeded changes (DESIGN.md §10.5) from seeded/*/meta.json + HISTORY.json"""
 import glob
 import json
 import os
 V = os.path.dirname(os.path.dirname(os.path.abspath(__file__)))
 hist = json.load(open(os.path.join(V, 'seeded', 'HISTORY.json')))
-missed = hist['first_run_missed']
-noinput = set(hist['first_run_detected_without_input'])
-rows = []
-for d in sorted(glob.glob(os.path.join(V, 'seeded', 'C*'))):
-    sid = os.path.basename(d)
-    try:
-        m = json.load(open(os.path.join(d, 'meta.json')))
-    except OSError:
-        continue
-    v = m.get('verification', {})
-    first = 'missed' if sid in missed else ('detected, no input' if sid in noinput else 'detected')
-    now = ('detected' + ('' if v.get('detected_with_input') else ', no input')) if v.get('detected') else 'MISSED'
-    rows.append((sid, m.get('property', sid[:3]), (m.get('summary') or '')[:110].replace('|', '/'),
-                 (m.get('needs_to_manifest') or '')[:90].replace('|', '/'), first, now, v.get('confirmed')))
-print('| seed | property | change (one line) | needs | first run | now |')
-print('|------|----------|-------------------|-------|-----------|-----|')
-for r in rows:
-    print('| %s | %s | %s | %s | %s | %s |' % r[:6])
-n = len(rows)
-print()
-print('%d seeded changes; confirmed (baseline 1400 passed, demo fails on patched tree, passes on HEAD): %d; '
-      'detected now: %d (with a concrete failing input: %d); detected on first run: %d' % (
-          n, sum(1 for r in rows if r[6]), sum(1 for r in rows if r[5].startswith('detected')),
-          sum(1 for r in rows if r[5] == 'detected'), sum(1 for r in rows if r[4] != 'missed')))
+
+
+def table(pattern, missed, noinput, title):
+    rows = []
+    for d in sorted(glob.glob(os.path.join(V, 'seeded', pattern))):
+        sid = os.path.basename(d)
+        try:
+            m = json.load(open(os.path.join(d, 'meta.json')))
+        except OSError:
+            continue
+        v = m.get('verification', {})
+        first = 'missed' if sid in missed else ('detected, no input' if sid in noinput else 'detected')
+        now = ('detected' + ('' if v.get('detected_with_input') else ', no input')) if v.get('detected') else 'MISSED'
+        rows.append((sid, v.get('property') or m.get('property', sid[:3]),
+                     (m.get('summary') or '')[:110].replace('|', '/').replace('\n', ' '),
+                     (m.get('needs_to_manifest') or '')[:90].replace('|', '/').replace('\n', ' '), first, now,
+                     v.get('confirmed')))
+    print('#### ' + title)
+    print()
+    print('| seed | property | change (one line) | needs | first run | now |')
+    print('|------|----------|-------------------|-------|-----------|-----|')
+    for r in rows:
+        print('| %s | %s | %s | %s | %s | %s |' % r[:6])
+    n = len(rows)
+    print()
+    print('%d seeded changes; confirmed (baseline 1400 passed, demo fails on patched tree, passes on HEAD): %d; '
+          'detected now: %d (with a concrete failing input: %d); detected on first run: %d' % (
+              n, sum(1 for r in rows if r[6]), sum(1 for r in rows if r[5].startswith('detected')),
+              sum(1 for r in rows if r[5] == 'detected'), sum(1 for r in rows if r[4] != 'missed')))
+    print()
+
+
+table('C*', hist['first_run_missed'], set(hist['first_run_detected_without_input']),
+      'Round 1 (two seeds per property, written while the checks were being built)')
+table('r2-C*', hist.get('round2_first_run_missed', {}), set(hist.get('round2_first_run_detected_without_input', [])),
+      'Round 2 (one fresh seed per property, written against the finished checks)')
